@@ -141,6 +141,7 @@ def wl_schedules(ctx, rng, case_no):
     console._lock = coop.CoopRLock(sched, "console._lock")
     console._record_buffer_lock = coop.CoopRLock(sched, "console._record_buffer_lock")
     events = []          # (step, thread, kind, detail)
+    cur_op = {}          # thread name -> kind of the operation it is executing
     captures = {}
     frames = {}          # frame id -> lines
     live = None
@@ -158,7 +159,8 @@ def wl_schedules(ctx, rng, case_no):
 
         def hook(renderables):
             me = sched.me()
-            events.append((sched.step, me.name if me else "?", "hook", live._lock.held_by_me()))
+            name = me.name if me else "?"
+            events.append((sched.step, name, "hook", (live._lock.held_by_me(), cur_op.get(name))))
             return orig_hook(renderables)
         live.process_renderables = hook
         lr = live._live_render
@@ -200,7 +202,9 @@ def wl_schedules(ctx, rng, case_no):
         def run():
             for op in prog[th]:
                 events.append((sched.step, "T%d" % th, "op_begin", op))
+                cur_op["T%d" % th] = op[0]
                 do_op(op)
+                cur_op["T%d" % th] = None
                 events.append((sched.step, "T%d" % th, "op_end", op))
         return run
 
@@ -355,7 +359,9 @@ def wl_schedules(ctx, rng, case_no):
 def taint(events, writes):
     """The known print-versus-refresh window: some other thread renders or writes the live frame strictly inside a
     print/log/capture operation's window [hook call, file write] of a thread that did not hold the live lock."""
-    hooks = [(s, t) for s, t, k, d in events if k == "hook" and d is False]
+    # only windows opened by print / log / capture operations are the known mechanism: refresh, update, start and
+    # stop are documented to run under the live lock, so an unlocked window there is a different defect
+    hooks = [(s, t) for s, t, k, d in events if k == "hook" and d[0] is False and d[1] in ("print", "log", "capture")]
     renders = [(s, t) for s, t, k, d in events if k == "frame_render"]
     for hs, ht in hooks:
         # the write of that thread that follows the hook
